@@ -25,6 +25,9 @@ var nvPresets = [][]int{
 	{0, 1, 9, 0, 0, 0}, // fully honest-looking NEW_VIEW
 	{0, 0, 2, 0, 1, 0}, // consumer-invalid fresh block
 	{0, 1, 2, 0, 0, 0}, // consumer-invalid block under cover of a lock
+	{0, 2, 8, 0, 0, 0}, // several proofs among the votes, proposal = block of the lowest one
+	{3, 0, 8, 0, 0, 0},
+	{0, 1, 8, 0, 0, 0},
 }
 
 // drawByz draws one adversarial injection against the live world (nil if the adversary owns no key).
@@ -95,7 +98,7 @@ func drawByz(t *rapid.T, w *sim.World, o simOpts) *sim.ByzSpec {
 		p[0] = rapid.IntRange(0, 3).Draw(t, "mode0")
 		p[1] = rapid.IntRange(0, 3).Draw(t, "mode1")
 		if strat == "nv" {
-			p[2] = rapid.SampledFrom([]int{0, 0, 1, 2, 3, 4, 5, 9, 9, 9}).Draw(t, "proposal")
+			p[2] = rapid.SampledFrom([]int{0, 0, 1, 2, 3, 4, 5, 8, 9, 9, 9}).Draw(t, "proposal")
 			p[3] = rapid.SampledFrom([]int{0, 0, 0, 0, 1, 2, 3}).Draw(t, "ppmode")
 			p[4] = rapid.SampledFrom([]int{0, 0, 0, 1}).Draw(t, "dropproofs")
 		}
@@ -109,7 +112,16 @@ func drawByz(t *rapid.T, w *sim.World, o simOpts) *sim.ByzSpec {
 	if strat == "nv" && rapid.Bool().Draw(t, "preset?") {
 		p = append([]int{}, rapid.SampledFrom(nvPresets).Draw(t, "preset")...)
 	}
-	return &sim.ByzSpec{Strat: strat, As: as, To: to, H: h, V: v, P: p}
+	spec := &sim.ByzSpec{Strat: strat, As: as, To: to, H: h, V: v, P: p}
+	// now and then everything is signed for ANOTHER instance id (cross-chain replay), preferably for a future height (cache path)
+	if rapid.IntRange(0, 11).Draw(t, "foreign-instance") == 0 {
+		spec.Inst = uint64(rapid.IntRange(1, 2).Draw(t, "instoff"))
+		if rapid.Bool().Draw(t, "foreign-future") && spec.H < w.Cfg.MaxHeight {
+			spec.H++
+			spec.V = 0
+		}
+	}
+	return spec
 }
 
 // C01 — agreement.
